@@ -17,7 +17,7 @@ import (
 
 type dbgBP struct {
 	Line int    `json:"line"`
-	Op   string `json:"op"` // set | disable | remove
+	Op   string `json:"op"`   // break | disablebreak | rmbreak | rmsource (one debugger command each)
 	When int    `json:"when"` // 0 = before the program starts, n>0 = at the n-th client round
 }
 
@@ -40,7 +40,7 @@ func init() {
 		New: func() interface{} { return &dbgPlan{} }, Run: func(p interface{}) { dbgRun(p.(*dbgPlan), "C16") }, Shrink: dbgShrink, Budget: 12_000_000})
 }
 
-var dbgBlockKinds = []string{"straight", "func", "nested", "loop", "tryerr", "sinks", "deep"}
+var dbgBlockKinds = []string{"straight", "func", "nested", "loop", "tryerr", "sinks", "deep", "zoo", "chain", "errdata"}
 
 func dbgGen(r *simrt.RNG, tier string, garbage bool) interface{} {
 	p := &dbgPlan{Workers: 1 + r.Intn(3), Garbage: garbage}
@@ -65,24 +65,33 @@ func dbgGen(r *simrt.RNG, tier string, garbage bool) interface{} {
 		// no error blocks (break-on-error is switched off anyway) so that the
 		// suspensions are exactly the breakpoint arrivals
 		for i, k := range p.Blocks {
-			if k == "tryerr" {
+			if k == "tryerr" || k == "errdata" {
 				p.Blocks[i] = "func"
 			}
 		}
 	}
 	src, _ := dbgProgram(p)
 	p.Lines = strings.Count(src, "\n") + 1
-	nb := r.Intn(5)
+	// breakpoint script: a sequence of single commands over a few lines, so that
+	// set / disable / remove hit the same line in every order
+	nl := 1 + r.Intn(4)
+	lines := make([]int, nl)
+	for i := range lines {
+		lines[i] = 1 + r.Intn(p.Lines)
+	}
+	nb := r.Intn(7)
 	for i := 0; i < nb; i++ {
-		bp := dbgBP{Line: 1 + r.Intn(p.Lines), Op: "set"}
+		bp := dbgBP{Line: lines[r.Intn(nl)], Op: "break"}
+		switch x := r.Intn(10); {
+		case x < 2 && i > 0:
+			bp.Op = "disablebreak"
+		case x < 4 && i > 0:
+			bp.Op = "rmbreak"
+		case x == 4 && i > 1:
+			bp.Op = "rmsource"
+		}
 		if !p.ResumeOnly {
 			bp.When = r.Intn(4)
-			switch r.Intn(6) {
-			case 0:
-				bp.Op = "disable"
-			case 1:
-				bp.Op = "remove"
-			}
 		}
 		p.BPs = append(p.BPs, bp)
 	}
@@ -155,6 +164,15 @@ func dbgProgram(p *dbgPlan) (string, bool) {
 			fmt.Fprintf(&b, "try {\n    t%d := e%d(%d)\n    log(\"noerr%d\")\n} except \"Err%d\" as err {\n    log(\"caught \", err.type)\n}\n", i, i, c+(i%2)*2, i, i)
 		case "deep":
 			fmt.Fprintf(&b, "func d%d(a) {\n    if a <= 0 {\n        return 0\n    }\n    return 1 + d%d(a - 1)\n}\nq%d := d%d(%d)\n", i, i, i, i, c)
+		case "zoo":
+			// assorted values a debugger has to describe: non-finite numbers, nesting, non-string keys
+			fmt.Fprintf(&b, "zinf%d := %d / 0\nzl%d := [1, [2, %d], {\"a\": 1}]\nzm%d := {1: 2, \"k\": [%d], true: null}\nzs%d := inc(len(zl%d))\n", i, c, i, c, i, c, i, i)
+		case "chain":
+			// a call on a function result whose argument list continues on the next line
+			fmt.Fprintf(&b, "obj%d := {\"mk\": func () {\n    return {\"add\": func (a) {\n        return a + %d\n    }}\n}}\nres%d := obj%d.mk().add(\n    inc(%d) + 1)\nlog(\"res%d=\", res%d)\n", i, c, i, i, c, i, i)
+		case "errdata":
+			fmt.Fprintf(&b, "func ed%d(a) {\n    let loc := [a, {2: a}]\n    raise(\"ErrD%d\", \"d\", {1: %d, \"l\": [a]})\n}\n", i, i, c)
+			fmt.Fprintf(&b, "try {\n    ed%d(%d)\n} except \"ErrD%d\" as err {\n    log(\"caught \", err.type)\n}\n", i, c, i)
 		case "sinks":
 			sinks = true
 			b.WriteString("total := 0\n")
@@ -183,12 +201,25 @@ type dbgVisit struct {
 }
 
 type dbgState struct {
-	visits  map[uint64][]dbgVisit
-	conts   map[uint64]int // continue commands sent per thread
-	inVisit map[uint64]int
+	visits   map[uint64][]dbgVisit
+	conts    map[uint64]int // continue commands sent per thread
+	inVisit  map[uint64]int
+	progress map[uint64]int // debugger hook entries per thread
+	lastCont map[uint64]int // progress of the thread when the last continue was sent to it
+}
+
+func (d *recDebugger) VisitStepInState(node *parser.ASTNode, vs parser.Scope, tid uint64) util.TraceableRuntimeError {
+	d.st.progress[tid]++
+	return d.ECALDebugger.VisitStepInState(node, vs, tid)
+}
+
+func (d *recDebugger) VisitStepOutState(node *parser.ASTNode, vs parser.Scope, tid uint64, soErr error) util.TraceableRuntimeError {
+	d.st.progress[tid]++
+	return d.ECALDebugger.VisitStepOutState(node, vs, tid, soErr)
 }
 
 func (d *recDebugger) VisitState(node *parser.ASTNode, vs parser.Scope, tid uint64) util.TraceableRuntimeError {
+	d.st.progress[tid]++
 	if node.Token == nil {
 		return d.ECALDebugger.VisitState(node, vs, tid)
 	}
@@ -220,7 +251,7 @@ func dbgExec(p *dbgPlan, src string, withDebugger bool, prop string) dbgOutcome 
 		out.scope = vs.String()
 		return out
 	}
-	st := &dbgState{visits: map[uint64][]dbgVisit{}, conts: map[uint64]int{}, inVisit: map[uint64]int{}}
+	st := &dbgState{visits: map[uint64][]dbgVisit{}, conts: map[uint64]int{}, inVisit: map[uint64]int{}, progress: map[uint64]int{}, lastCont: map[uint64]int{}}
 	inner := interpreter.NewECALDebugger(vs)
 	dbg := &recDebugger{inner, st}
 	erp.Debugger = dbg
@@ -228,16 +259,11 @@ func dbgExec(p *dbgPlan, src string, withDebugger bool, prop string) dbgOutcome 
 		dbg.BreakOnError(false)
 	}
 	applyBP := func(bp dbgBP) {
-		switch bp.Op {
-		case "set":
-			dbgCmd(dbg, prop, fmt.Sprintf("break c15:%d", bp.Line))
-		case "disable":
-			dbgCmd(dbg, prop, fmt.Sprintf("break c15:%d", bp.Line))
-			dbgCmd(dbg, prop, fmt.Sprintf("disablebreak c15:%d", bp.Line))
-		case "remove":
-			dbgCmd(dbg, prop, fmt.Sprintf("break c15:%d", bp.Line))
-			dbgCmd(dbg, prop, fmt.Sprintf("rmbreak c15:%d", bp.Line))
+		if bp.Op == "rmsource" {
+			dbgCmd(dbg, prop, "rmbreak c15")
+			return
 		}
+		dbgCmd(dbg, prop, fmt.Sprintf("%s c15:%d", bp.Op, bp.Line))
 	}
 	if prop == "C16" && p.Garbage {
 		// commands in the state "nothing executed yet"
@@ -289,11 +315,22 @@ func dbgExec(p *dbgPlan, src string, withDebugger bool, prop string) dbgOutcome 
 			if prop == "C16" && p.Garbage && simrt.ChooseP(0.5) {
 				dbgCmd(dbg, prop, dbgGarbage(suspended))
 			}
+			if prop == "C16" && p.Garbage && simrt.ChooseP(0.5) {
+				dbgCmd(dbg, prop, dbgPlausible(p, suspended))
+			}
 			if cmd == "stepout" && len(dbgCallStack(dbg, tid)) == 0 {
 				if prop == "C15" {
 					cmd = "stepover" // step-out at top level is C16's subject (command x state totality)
 				}
 			}
+			// a thread reported as suspended must be released by the continue addressed to
+			// it: a second continue for the same suspension (no debugger hook entered by the
+			// thread in between) means the first one was lost
+			if last, ok := st.lastCont[tid]; ok && last == st.progress[tid] {
+				simrt.Fail("oracle:thread-not-resumed", "continue-did-not-release",
+					"thread %d is still reported as suspended at the same place after a continue command was addressed to it (the command was consumed, the thread was not released)", tid)
+			}
+			st.lastCont[tid] = st.progress[tid]
 			st.conts[tid]++
 			simrt.Count("fault_debug_cont_" + cmd)
 			if tid == mainTid && mainTask != nil {
@@ -345,9 +382,20 @@ func dbgExec(p *dbgPlan, src string, withDebugger bool, prop string) dbgOutcome 
 	if prop == "C15" && p.ResumeOnly {
 		// (c) suspensions are exactly the arrivals, from a different line, at lines
 		// with an active breakpoint
+		// reference model of the breakpoint commands: break -> active, disablebreak ->
+		// present but inactive, rmbreak -> gone, rmbreak <source> -> all gone
 		active := map[int]bool{}
 		for _, bp := range p.BPs {
-			active[bp.Line] = true
+			switch bp.Op {
+			case "break":
+				active[bp.Line] = true
+			case "disablebreak":
+				active[bp.Line] = false
+			case "rmbreak":
+				delete(active, bp.Line)
+			case "rmsource":
+				active = map[int]bool{}
+			}
 		}
 		var tids []uint64
 		for tid := range st.visits {
@@ -402,6 +450,7 @@ func dbgCmd(dbg util.ECALDebugger, prop, line string) interface{} {
 				simrt.Fail("oracle:command-panic", "command-panic/"+firstWord(line), "debugger command %q panicked: %v (locks still held by the caller: %v)", line, r, held)
 			}
 		}()
+		simrt.Note("debugger command %q", line)
 		res, err = dbg.HandleInput(line)
 	}()
 	if held := simrt.HeldLocks(); len(held) > 0 {
@@ -479,11 +528,59 @@ func dbgCallStack(dbg util.ECALDebugger, tid uint64) []string {
 	return nil
 }
 
+// dbgPlausible produces a well-formed command aimed at the state the program is
+// in: existing variables (with in- and out-of-range container paths), suspended
+// thread ids, expressions.
+func dbgPlausible(p *dbgPlan, suspended []uint64) string {
+	simrt.Count("fault_debug_plausible_command")
+	tid := "1"
+	if len(suspended) > 0 {
+		tid = fmt.Sprint(suspended[simrt.Choose(len(suspended))])
+	}
+	var vars []string
+	for i, k := range p.Blocks {
+		switch k {
+		case "zoo":
+			vars = append(vars, fmt.Sprintf("zl%d", i), fmt.Sprintf("zl%d.0", i), fmt.Sprintf("zl%d.-1", i), fmt.Sprintf("zl%d.-5", i), fmt.Sprintf("zl%d.7", i),
+				fmt.Sprintf("zl%d.1.-4", i), fmt.Sprintf("zl%d.2.a", i), fmt.Sprintf("zl%d.x", i), fmt.Sprintf("zm%d.k.0", i), fmt.Sprintf("zm%d.k.-3", i), fmt.Sprintf("zm%d.1", i), fmt.Sprintf("zinf%d", i), fmt.Sprintf("zinf%d.a", i))
+		case "straight":
+			vars = append(vars, fmt.Sprintf("v%d", i), fmt.Sprintf("v%d.0", i))
+		case "chain":
+			vars = append(vars, fmt.Sprintf("obj%d", i), fmt.Sprintf("obj%d.mk", i), fmt.Sprintf("res%d", i))
+		case "errdata":
+			vars = append(vars, "loc", "loc.-3", "loc.1.2", "loc.1.9")
+		}
+	}
+	// (variables that steer loops / recursion of the program - a, b, i, acc - are never
+	// targets: injecting into them legitimately changes what the program does, e.g.
+	// makes a recursion endless, which is the user's doing, not the debugger's)
+	if len(vars) == 0 {
+		vars = []string{"zz"}
+	}
+	v := vars[simrt.Choose(len(vars))]
+	exprs := []string{"1", "[1, 2]", "{1: 2}", "\"s\"", "null", "1 / 0", "[1, [2]]", "len([1])", "x x", "1 +"}
+	names := []string{"x1", "zz", "yy2"}
+	switch simrt.Choose(6) {
+	case 0:
+		return fmt.Sprintf("inject %s %s %s", tid, v, exprs[simrt.Choose(len(exprs))])
+	case 1:
+		return fmt.Sprintf("extract %s %s %s", tid, strings.SplitN(v, ".", 2)[0], names[simrt.Choose(len(names))])
+	case 2:
+		return fmt.Sprintf("describe %s", tid)
+	case 3:
+		return "lockstate"
+	case 4:
+		return fmt.Sprintf("inject %s %s %s", tid, names[simrt.Choose(len(names))], exprs[simrt.Choose(len(exprs))])
+	default:
+		return fmt.Sprintf("describe %s", tid)
+	}
+}
+
 // dbgGarbage produces an arbitrary command line (C16).
 func dbgGarbage(suspended []uint64) string {
 	words := []string{"breakonstart", "break", "rmbreak", "disablebreak", "cont", "describe", "status", "extract", "inject", "lockstate", "foo", ""}
 	args := []string{"1", "2", "3", "999", "-1", "0", "9223372036854775807", "9223372036854775808", "c15", "c15:1", "c15:2", "nosuch:3", "a:b:c", "x:-1", "c15:",
-		":", "v0", "total", "b", "1+1", "{\"a\":1}", "len([1])", "resume", "stepin", "stepover", "stepout", "kill", "%$#", "true", "false", "{{", "raise(1)"}
+		":", "v0", "total", "b", "1+1", "{\"a\":1}", "len([1])", "zl0", "zl0.-5", "zl0.-1", "zl0.9", "zl0.1.-3", "zm0.k.3", "zm0.k.-2", "zm0.x.y", "zl1.2.a", "loc.-3", "loc.1.2", "a.b", "zinf0", "[1,2]", "{1:2}", "resume", "stepin", "stepover", "stepout", "kill", "%$#", "true", "false", "{{", "raise(1)"}
 	for _, t := range suspended {
 		args = append(args, fmt.Sprint(t), fmt.Sprint(t), fmt.Sprint(t))
 	}
